@@ -52,9 +52,12 @@ pub struct Knobs {
     pub call_heavy: bool,
     /// bias towards instructions that read / move contract code, balances and storage (C30)
     pub code_ops: bool,
+    /// scripts end by probing `GTF InputContractOutputIndex` for a few input indices and logging the answers (the only
+    /// observer of the interpreter's input-index -> output-index map; a non-contract index panics InputNotFound)
+    pub gtf_probe: bool,
 }
 impl Knobs {
-    pub fn normal() -> Self { Knobs { fault_pm: 30, unlisted_pm: 0, max_blocks: 10, coins: true, call_heavy: false, code_ops: false } }
+    pub fn normal() -> Self { Knobs { fault_pm: 30, unlisted_pm: 0, max_blocks: 10, coins: true, call_heavy: false, code_ops: false, gtf_probe: false } }
 }
 
 fn gp(rng: &mut Rng) -> u8 { GP_LO + rng.below(GP_N as u64) as u8 }
@@ -325,6 +328,14 @@ pub fn program(g: &mut GenCtx) -> Vec<Instruction> {
     }
     let nb = g.rng.range(1, g.knobs.max_blocks.max(1));
     for _ in 0..nb { block(g, &mut out); }
+    if g.knobs.gtf_probe && !g.internal && g.rng.chance(2, 3) {
+        let n = g.rng.range(1, 3);
+        for _ in 0..n {
+            out.push(op::movi(R_T1, g.rng.below(6) as u32));
+            out.push(op::gtf_args(R_T2, R_T1, GTFArgs::InputContractOutputIndex));
+            out.push(op::log(R_T1, R_T2, RegId::ZERO, RegId::ZERO));
+        }
+    }
     epilogue(g, &mut out);
     out
 }
@@ -473,7 +484,10 @@ pub fn gen_world_cases(rng: &mut Rng, knobs: Knobs, gas_limit: Word, k: usize) -
         let mut unlisted: Vec<usize> = deployed.iter().copied().filter(|i| !listed.contains(i)).collect();
         if unlisted.is_empty() || rng.chance(1, 4) { unlisted.extend(n_contracts..N_CALLS); }
         let script: Vec<Instruction> = {
-            let mut g = GenCtx { rng, knobs, internal: false, callable: listed.clone(), unlisted, self_idx: None, depth: 0 };
+            let mut kn = knobs; kn.gtf_probe = true;
+            // a third of the scripts do nothing that can panic before the probes
+            if rng.chance(1, 3) { kn.max_blocks = 1; kn.unlisted_pm = 0; }
+            let mut g = GenCtx { rng, knobs: kn, internal: false, callable: listed.clone(), unlisted, self_idx: None, depth: 0 };
             program(&mut g)
         };
         let mut data = Vec::with_capacity(DATA_LEN);
